@@ -189,6 +189,10 @@ func Harness_app_period() {
 	for i := range heads {
 		heads[i] = verifDay("day", layout, 40)
 	}
+	if R >= 3 && verifChoose("same-heading-again", 2) == 1 {
+		// the last day is written exactly like the first (the same date, the same text)
+		heads[R-1] = heads[0]
+	}
 	foods := []string{"f0", "f1", "unknown"}
 	mk := func(keep []bool) string {
 		src := ""
